@@ -640,9 +640,9 @@ var (
 		`b\u0007l`, `u\u001fs`, `d\u007fl`, `p\udb40\udc01e`,
 		`\u0020lead`, `trail\u0020`, `\u00a0nb`, `\u0020`, // bell, unit separator, DEL, a non-printable rune above the BMP
 		`say \"hi\"`, `5\"`, `\"`, `end\\`, `a%41b`, `%20x`, `x%26y&z`} // a quote or a backslash at the very end; text that looks percent-encoded
-	pageVocab   = []string{"2", "2", "10", "x y", "a&b", "1+1", "%20x", "a%41b"}
+	pageVocab = []string{"2", "2", "10", "x y", "a&b", "1+1", "%20x", "a%41b"}
 	// names of page arguments other than number and size (a cursor, a name with reserved characters)
-	pageNames = []string{"cursor", "cursor", "after", "after&before", "a+b", "100%", "a=b", "a#b", "a]b", "a b", "numbe", "sizes"}
+	pageNames   = []string{"cursor", "cursor", "after", "after&before", "a+b", "100%", "a=b", "a#b", "a]b", "a b", "numbe", "sizes"}
 	filterVocab = []string{
 		`{"f":"x","o":"=","v":"a"}`,
 		`{"f":"y","o":"<","v":3}`,
